@@ -278,6 +278,46 @@ def r19_7(ctx):
     ctx.floor("R19.7", "meta-handlings", n, 20)
 
 
+def r19_9(ctx):
+    """step 2 of 'extract a character encoding from a meta element': the FIRST seven bytes at or after position that match
+    "charset" ASCII-case-insensitively - nothing else decides whether a position matches (no word-boundary test: `xcharset=` and
+    `text/htmlcharset=` match), and nothing else decides whether the attribute is a content-type pragma than its value being
+    "content-type" ASCII-case-insensitively (no trimming)"""
+    key, pcs = nfq.cells(ctx, "html_driver", "encoding::extract_a_character_encoding_from_a_meta_element")
+    bad = None
+    n = 0
+    for pc in nfq.feasible(pcs):
+        gs = list(pc["guards"].items())
+        if not gs:
+            continue
+        k0, v0 = gs[0]
+        if not re.match(r"p1\.as_bytes\(\)\.get\(.*\.\.\(.* \+ ('charset'\.len\(\)|7)\)\) matches Some\(_\)", k0):
+            bad = "the search for \"charset\" starts with the test %s" % k0[:80]
+            continue
+        if not v0:
+            continue
+        n += 1
+        if len(gs) < 2 or not re.search(r"\.eq_ignore_ascii_case\(\[99, 104, 97, 114, 115, 101, 116\]\)", gs[1][0]):
+            bad = "whether a position matches \"charset\" depends on %s before / instead of the seven bytes themselves: the standard takes the first match wherever it is (e.g. inside `xcharset=`)" % (gs[1][0][:80] if len(gs) > 1 else "nothing")
+            continue
+        names = nfq.names(pc)
+        inner_end = [args for a, args in pc["actions"] if a == "loop-end"]
+        if inner_end and ((gs[1][1] and inner_end[0][0] != "break") or ((not gs[1][1]) and inner_end[0][0] not in ("end", "continue"))):
+            bad = "the seven bytes %s \"charset\" but the search %s" % ("match" if gs[1][1] else "do not match", "goes on" if gs[1][1] else "stops")
+    ctx.ob("R19.9", "charset-found-by-its-seven-bytes-only", bad is None and n >= 6, bad or "%d paths: a position matches iff its seven bytes do" % n, "html5ever encoding.rs extract_a_character_encoding_from_a_meta_element")
+    # the http-equiv test of the in-head meta rule
+    key, step = nfq.cells(ctx, "html_tree_builder", "rules::TreeBuilder<Handle,Sink>::step")
+    bad = None
+    k = 0
+    for pc in nfq.feasible(step):
+        for g in pc["guards"]:
+            if "http-equiv" in g and "content-type" in g:
+                k += 1
+                if not re.search(r"get_attribute\(atom:http-equiv\)(\.0)?(\.is_some_and\(\|\.\.\|\{?|\.0\.|\.)[^|]*?a?1?\.?eq_ignore_ascii_case\(\"content-type\"\)", g) or re.search(r"trim|to_lowercase|to_uppercase|replace|split|strip", g):
+                    bad = "the http-equiv value is compared as %s; the standard compares the attribute's value, as it is, ASCII-case-insensitively with \"content-type\"" % g[:120]
+    ctx.ob("R19.9", "http-equiv-compared-as-it-is", bad is None and k >= 1, bad or "value.eq_ignore_ascii_case(\"content-type\") on the attribute value itself", "html5ever tree_builder rules.rs InHead meta")
+
+
 def r19_8(ctx):
     """Tag::get_attribute(name): the value of the FIRST attribute (source order) in no namespace with that local name - whatever
     the value is.  `charset=""` is a charset attribute: it makes the element a charset declaration (with label "") and takes
@@ -306,6 +346,8 @@ def r19_8(ctx):
 
 
 def run(ctx):
+    ctx.rule("R19.9", "\"charset\" is found by its seven bytes alone; http-equiv is compared with content-type as it is")
+    ctx.guard("R19.9", "charset-search", lambda: r19_9(ctx))
     ctx.rule("R19.8", "Tag::get_attribute finds an attribute by name only: an empty charset / content / http-equiv value is still that attribute")
     ctx.guard("R19.8", "get_attribute", lambda: r19_8(ctx))
     ctx.rule("R19.7", "no insertion mode other than 'in head' inserts the element for a meta start tag: every inserted HTML meta element passed the indicator decision")
